@@ -252,6 +252,13 @@ def known_findings():
             _known_cache = json.load(open(KNOWN))
         except FileNotFoundError:
             _known_cache = {"findings": [], "fixed": []}
+        d = os.path.join(VERIF, "known_findings.d")
+        if os.path.isdir(d):
+            for f in sorted(os.listdir(d)):
+                if f.endswith(".json"):
+                    extra = json.load(open(os.path.join(d, f)))
+                    _known_cache.setdefault("findings", []).extend(extra.get("findings", []))
+                    _known_cache.setdefault("fixed", []).extend(extra.get("fixed", []))
     return _known_cache
 
 
